@@ -8,5 +8,6 @@ CONSTANTS BlockLists = {"b1"}
           SchedBeh <- BehLongSched
           FileBeh <- BehLongFile
           SetURLBeh <- BehNone
+          Toggle = FALSE
           SetURLAsIs = FALSE
 INVARIANTS InvCoherent
